@@ -29,7 +29,7 @@ func genCase(t *rapid.T) sim.Scenario { return gen.ServerScenario(t, profile) }
 // handlers fail, return bad values or are cancelled, then a call that stays
 // parked, then later requests.
 var lowLimit = gen.Profile{
-	MinSteps: 6, MaxSteps: 28, Limits: []int{2, 3, 4},
+	MinSteps: 6, MaxSteps: 28, Limits: []int{1, 1, 2, 3, 4},
 	PNote: 40, PGate: 55, PInvalid: 6, PUnknown: 6, PBatch: 35, MaxBatch: 3,
 	PCancel: 5, PBurst: 30, PObey: 30, Builtins: false, Pins: true, PRelease: 45,
 	Outcomes: []string{"ok", "err:-32000", "err:7", "ctxerr", "bad", "baderr"},
@@ -51,7 +51,7 @@ var parts = []engine.AnyPart{
 
 func init() {
 	parts = append(parts, engine.Part[sim.Scenario]{Name: "lowlimit", Run: run, Gen: genLow,
-		Rule: "as scenarios, but with Concurrency 2-4 and handlers (of notifications too) that fail, return unmarshalable values or are cancelled before a call stays parked and further requests arrive: below the limit a request of a started record must begin although earlier calls are still running; non-trivial = a notification was parked at a moment when a later record had already been received; distinct = hash of the scenario"})
+		Rule: "as scenarios, but with Concurrency 1-4 and handlers (of notifications too) that fail, return unmarshalable values or are cancelled before a call stays parked and further requests arrive: below the limit a request of a started record must begin although earlier calls are still running; non-trivial = a notification was parked at a moment when a later record had already been received; distinct = hash of the scenario"})
 }
 
 func TestProp(t *testing.T)   { engine.RunParts(t, "C03", parts) }
